@@ -82,24 +82,27 @@ func OriginPoint() Point {
 func (p Point) PointCross(op Point) Point {
 	// NOTE(dnadasi): In the C++ API the equivalent method here was known as "RobustCrossProd",
 	// but PointCross more accurately describes how this method is used.
-	// The sum is tiny when the points are nearly antipodal and the difference
-	// is tiny when they are nearly identical. Both are computed exactly in that
-	// case, but their cross product would lose precision to gradual underflow
-	// (and callers take its squared norm, which underflows below ~1e-154).
-	// The scale of the result carries no meaning, so rescale the tiny factor
-	// first (exactly, by a power of two).
-	x := scaleUpTiny(p.Add(op.Vector)).Cross(scaleUpTiny(op.Sub(p.Vector)))
+	x := p.Add(op.Vector).Cross(op.Sub(p.Vector))
 
-	// Compare exactly to the 0 vector.
-	if x == (r3.Vector{}) {
-		// The only result that makes sense mathematically is to return zero, but
-		// we find it more convenient to return an arbitrary orthogonal vector.
+	// The formula above is accurate as long as the result is not too small:
+	// its absolute error is a few dblEpsilon, so below ~1e-14 (points within a
+	// few 1e-15 radians of identical or antipodal) the direction of x is
+	// rounding noise - when the difference op-p is dominated by the two
+	// points' difference in length it can even cancel to exactly zero although
+	// the points are not parallel, which breaks property (2) - and below
+	// ~1e-154 the squared norms callers take of it underflow. In those cases
+	// compute the cross product exactly and round its direction.
+	if x.Norm2() >= 1e-28 {
+		return Point{x}
+	}
+	px := r3.PreciseVectorFromVector(p.Vector).Cross(r3.PreciseVectorFromVector(op.Vector))
+	if px.IsZero() {
+		// p and op are exactly parallel. The only result that makes sense
+		// mathematically is to return zero, but we find it more convenient to
+		// return an arbitrary orthogonal vector.
 		return Point{p.Ortho()}
 	}
-
-	// (The product can still be tiny when op-p is dominated by a difference in
-	// length rather than direction.)
-	return Point{scaleUpTiny(x)}
+	return Point{px.Vector()}
 }
 
 // scaleUpTiny returns v multiplied by a power of two such that its largest
